@@ -1,5 +1,6 @@
 import AasVerif.Lemmas.CacheLog
 import AasVerif.Lemmas.CacheQuiet
+import AasVerif.Lemmas.CacheLive4
 import AasVerif.Model.CacheFlag
 import AasVerif.Model.CachePickle
 import AasVerif.Gen.Cache
@@ -73,6 +74,20 @@ theorem transparent (hash : Nat → Nat) (valid : Nat → Bool) (hinj : ∀ a b,
       · next hv => injection ho with ho; exact ⟨ho, by simpa [world] using hv⟩
     · cases ho
     · cases ho
+
+/-- **transparent, exit status included.** A run that is not itself crashed from outside never
+raises: with a cold cache, a warm cache, a cache being written or left half-written by other runs,
+it is running or has returned the uncached result of its own text. -/
+theorem transparent_total (hash : Nat → Nat) (valid : Nat → Bool) (hinj : ∀ a b, hash a = hash b → a = b)
+    (sched : List Event) (i : Nat) (p : Proc)
+    (hp : (run (world hash valid) sched St.init).procs i = some p) (hf : p.faulted = false) :
+    p.mode = .running ∨ p.mode = .finished (uncached (world hash valid) p.text) := by
+  have hsafe : SafeSkeleton Gen.Cache.loadModelOps := by intro flag; cases flag <;> decide
+  have hlive : LiveSkeleton Gen.Cache.loadModelOps := by intro flag; cases flag <;> decide
+  have h := run_LiveAll (world hash valid) hinj hsafe hlive sched St.init (WF_init _) (LiveAll_init _) i p hp
+  rcases h.alive hf with ⟨hm, _⟩ | hfin
+  · exact Or.inl hm
+  · exact Or.inr hfin
 
 /-- Non-vacuity of `transparent`: cold run on text 3, edit to text 4 (cold again), back to text 3
 (warm): results 3, 4, 3; an invalid text 9 gives its error with and without the flag. -/
